@@ -412,6 +412,15 @@ def run_python(case):
 
 # ------------------------------------------------------------------------------------------ model side
 
+def order_mode():
+    """which `_get_key` the code under test has: the pinned one, or the total structural key of the `expr` family's
+    fix (recognised by its helper `_variable_total_key`); the Lean interpreter is parametric in that order and no
+    C12 theorem depends on it"""
+    from y0 import dsl
+
+    return "total" if hasattr(dsl, "_variable_total_key") else "pinned"
+
+
 def request(case):
     if case["kind"] == "tokens":
         toks = _tokens_case_text(case)
@@ -434,8 +443,8 @@ def request(case):
         if not isinstance(e, Expression):
             raise TypeError
     except Exception:
-        return C.enc(["print", "eval", case["build"]])
-    return C.enc(["print", "rt", case["build"], PC.enc_expr(e)])
+        return C.enc(["print", "eval", order_mode(), case["build"]])
+    return C.enc(["print", "rt", order_mode(), case["build"], PC.enc_expr(e)])
 
 
 def _res(x, norm=False):
